@@ -190,6 +190,9 @@ def motion_notify_rule(ctx, cg=None):
 
 
 def run(ctx):
+    from ..shared import foreign_state_rule as _fsr
+
+    ctx.attempt(_fsr, ctx, 'R14.31', lambda f, _s=('EasyFEA.FEM', 'EasyFEA.Simulations', 'EasyFEA.Models'): f.module.name.startswith(_s))
     from . import c17 as _c17s
 
     # 'restoring an iteration ... the next matrices, solution and results are identical to those of a new simulation': the history protocol
